@@ -53,6 +53,7 @@ COMPONENTS = {
         "buidl.tx.Tx.parse (tx messages)",
         "buidl.bloomfilter.BloomFilter.filterload",
         "buidl.compactfilter message classes",
+        "buidl.helper encode/read_varint, encode/read_varstr, int<->little/big endian, calculate_new_bits, bits_to_target",
     ],
     "stub": [
         "remote peer (ref/p2p + ref/merkle + ref/txmodel, synthetic regtest-difficulty chain)",
